@@ -90,7 +90,7 @@ var (
 		Methods:  allEngineMethods,
 		MinRules: 1, MaxRules: 6, SalSpan: 2,
 		Secs:    map[int]int{SecY: 2, SecCall: 2, SecAsgKind: 1},
-		MaxSecs: 2, Rets: []int{RetNone, RetNestedV, RetNestedV, RetNestedB, RetLoop, RetTop, RetTopB, RetKind, RetTopKind, RetElse, RetReq, RetUnexp},
+		MaxSecs: 2, Rets: []int{RetNone, RetNestedV, RetNestedV, RetNestedB, RetLoop, RetTop, RetTopB, RetKind, RetTopKind, RetElse, RetReq, RetUnexp, RetForRange, RetElseIf, RetBreak, RetContinue},
 		FaultPct: 45, FaultKinds: map[int]bool{SecCall: true, SecAsgKind: true, -1: true}, GatePct: 10, RetPct: 65, MinCalls: 4, MaxCalls: 14, UnknownNamePct: 15, BadNMPct: 5, EvolvePct: 20,
 	}
 	ProfC12 = &Profile{
